@@ -1,6 +1,6 @@
 //! C04: no client input can crash the handler or make it allocate unboundedly.
 //!
-//! Fault enumeration: in each of ten protocol states (reached by the honest prefix) one hostile
+//! Fault enumeration: in each of eleven protocol states (reached by the honest prefix) one hostile
 //! frame from a structured alphabet is injected, followed by silence or by the client's EOF.
 use crate::sim::*;
 use common::refs::codec::{self, W, varint};
@@ -42,8 +42,10 @@ enum Part {
 
 const SECRET: &[u8] = b"c04-cookie-secret";
 
+const N_STATES: usize = 11;
+
 fn state_name(s: usize) -> &'static str {
-    ["before-handshake", "status-after-handshake", "status-after-request", "login-after-handshake", "awaiting-session-cookie", "awaiting-auth-cookie", "awaiting-encryption-response", "awaiting-login-ack", "configuration", "configuration-routing"][s]
+    ["before-handshake", "status-after-handshake", "status-after-request", "login-after-handshake", "awaiting-session-cookie", "awaiting-auth-cookie", "awaiting-encryption-response", "awaiting-login-ack", "configuration", "configuration-routing", "configuration-routing-keep-alive-outstanding"][s]
 }
 
 fn prefix(state: usize) -> Vec<Step> {
@@ -135,6 +137,12 @@ fn items_for(state: usize, max: i32, thorough: bool) -> Vec<Item> {
             push(&class, bytes.clone(), false, true, true);
         }
         push(&format!("{class}+eof"), bytes, true, true, false);
+    }
+    if state >= 8 {
+        // well-formed Keep Alive frames with extreme ids (with and without one outstanding, see state 10)
+        for id in [0u64, 1, 15_999, 16_000, 16_001, i64::MAX as u64, 1 << 63, u64::MAX - 1, u64::MAX] {
+            push(&format!("keep-alive-id:{id:#x}+eof"), codec::frame(4, &id.to_be_bytes()), true, false, false);
+        }
     }
     for (id, parts) in packets(state) {
         let honest = render(id, &parts);
@@ -255,17 +263,19 @@ fn build(it: &Item) -> Case {
         Some("resource-pack-response") => case.script.push(st(When::Idle, Act::Frame { id: 6, body: W::new().u128(9).varint(3).done() })),
         _ => {}
     }
+    // state 10: the hostile bytes arrive at 17 s, while the Keep Alive sent at 16 s is unanswered
+    let when = if it.state == 10 { When::IdleAfter(17_000) } else { When::Idle };
     match it.enc_secret_len {
-        Some(n) => case.script.push(st(When::Idle, Act::EncResponse(EncKind::SecretLen(n)))),
-        None => case.script.push(st(When::Idle, Act::Raw(common::unhex(&it.bytes_hex)))),
+        Some(n) => case.script.push(st(when, Act::EncResponse(EncKind::SecretLen(n)))),
+        None => case.script.push(st(when, Act::Raw(common::unhex(&it.bytes_hex)))),
     }
     if it.eof {
         case.script.push(st(When::With, Act::Eof));
     }
-    if it.state == 9 {
+    if it.state >= 9 {
         case.adapters.disc_ms = 40_000;
     }
-    case.echo = Echo::Prompt;
+    case.echo = if it.state == 10 { Echo::Never } else { Echo::Prompt };
     case.horizon_ms = 100_000;
     case
 }
@@ -276,7 +286,11 @@ fn judge(it: &Item, baseline_packets: usize, obs: &Obs) -> Vec<(String, String)>
     let mut bad = |k: String, t: String| v.push((k, t));
     // (i) no panic
     if let RunResult::Panic(p) = &obs.result {
-        bad(format!("panic:{}", it.class.trim_end_matches("+eof")), format!("state {st}: handler panicked: {p}"));
+        if p.starts_with(SPIN_MARK) {
+            bad("keeps-running-after-eof".into(), format!("state {st}: the handler never noticed the end of stream and kept reading ({p})"));
+        } else {
+            bad(format!("panic:{}", it.class.trim_end_matches("+eof")), format!("state {st}: handler panicked: {p}"));
+        }
         return v;
     }
     if obs.steps_done < prefix(it.state).len() + 1 + it.tolerated_first.is_some() as usize {
@@ -307,7 +321,8 @@ fn judge(it: &Item, baseline_packets: usize, obs: &Obs) -> Vec<(String, String)>
     }
     // (iv) out-of-range outer length is refused before the body is awaited
     if it.refuse_now {
-        let sent_at = 0; // the whole prefix runs at virtual time 0 (state 9: Client Information at 0 as well)
+        // the whole prefix runs at virtual time 0 (state 9: Client Information at 0 as well); state 10 sends at 17 s
+        let sent_at = obs.step_times.last().copied().unwrap_or(0);
         if !obs.result.is_err() || obs.end_ms != sent_at {
             bad(format!("length-not-refused-at-once:{}", it.class), format!("state {st}: declared length out of (0, {}] and nothing else sent; handler result {:?} at {} ms", it.max, obs.result, obs.end_ms));
         } else if !matches!(&obs.result, RunResult::Err { kind, .. } if kind == "IllegalPacketLength") {
@@ -336,7 +351,7 @@ pub fn run(cli: Cli) -> ! {
         let base = crate::sim::run(&{
             let mut c = build(&it);
             c.script.truncate(prefix(it.state).len());
-            c.horizon_ms = 1;
+            c.horizon_ms = if it.state == 10 { 16_500 } else { 1 };
             c
         });
         let obs = crate::sim::run(&build(&it));
@@ -353,7 +368,7 @@ pub fn run(cli: Cli) -> ! {
     }
     let thorough = cli.tier.thorough();
     let mut items: Vec<Item> = vec![];
-    for state in 0..10 {
+    for state in 0..N_STATES {
         let maxes: Vec<i32> = match state {
             0 => vec![1, 64, 10_000, 2_097_151],
             1..=5 => vec![64, 10_000, 2_097_151],
@@ -379,11 +394,11 @@ pub fn run(cli: Cli) -> ! {
         }
     }
     // number of clientbound packets the honest prefix alone produces, per state
-    let baseline: Vec<usize> = (0..10)
+    let baseline: Vec<usize> = (0..N_STATES)
         .map(|s| {
             let mut c = build(&Item { state: s, max: 10_000, class: String::new(), bytes_hex: String::new(), eof: false, malformed: false, refuse_now: false, enc_secret_len: None, tolerated_first: None });
             c.script.truncate(prefix(s).len());
-            c.horizon_ms = 1;
+            c.horizon_ms = if s == 10 { 16_500 } else { 1 };
             crate::sim::run(&c).packets.len()
         })
         .collect();
@@ -408,9 +423,9 @@ pub fn run(cli: Cli) -> ! {
     rep.require("distinct (state, class, result) triples", d, 100);
     rep.set("evaluations", json!(items.len()));
     rep.set("distinct_nontrivial", json!(d));
-    rep.set("states", json!(10));
+    rep.set("states", json!(N_STATES));
     rep.set("exhaustive", json!(true));
-    rep.set("rule", json!("one hostile frame per run in each of 10 protocol states x configured maximum {1,64,10000,2097151}: 10 outer length prefixes (alone, and followed by EOF), 8 inner length prefixes per length-prefixed field of every packet legal in the state, truncation of the honest frame at every byte offset + EOF, invalid UTF-8 per string, 4 out-of-range ordinals per enum, RSA ciphertext shapes, every [len][id][b] frame for id 0..0x20,0x7f and b 0..255 and 256 two-byte bodies. distinct_nontrivial = distinct (state, class, result)."));
+    rep.set("rule", json!("one hostile frame per run in each of 11 protocol states (the last: configuration phase, routing slow, the Keep Alive of the 16 s tick unanswered, hostile bytes at 17 s) x configured maximum {1,64,10000,2097151}: 10 outer length prefixes (alone, and followed by EOF), 8 inner length prefixes per length-prefixed field of every packet legal in the state, truncation of the honest frame at every byte offset + EOF, invalid UTF-8 per string, 4 out-of-range ordinals per enum, RSA ciphertext shapes, 9 well-formed Keep Alive frames with extreme ids in the configuration states, every [len][id][b] frame for id 0..0x20,0x7f and b 0..255 and 256 two-byte bodies. distinct_nontrivial = distinct (state, class, result)."));
     rep.sample(json!({"item": items[0]}));
     rep.sample(json!({"item": items[items.len() / 2]}));
     rep.sample(json!({"item": items[items.len() - 1]}));
